@@ -194,6 +194,9 @@ func TablesWith(c explore.Chooser, defaultCol string) *prog.Program {
 	dirtyFirst := s.Pick("user.unexported-first", "no", "yes")
 	linkCol := s.Pick("link.extra-col", "none", "composite", "array", "json")
 	keyColName := s.Pick("name.key-column", "Name", "Émail")
+	// the helper package named like the analysed package (models importing models/models)
+	extName := s.Pick("ext.pkgname", "ext", "models")
+	extPath = rootPath + "/" + extName
 
 	var b, ext strings.Builder
 	b.WriteString("type IdUser int64\n\ntype UserId int64\n\ntype IdTeam int64\n\ntype TeamId int64\n\ntype IdGhost int64\n\n")
@@ -360,6 +363,7 @@ func TablesWith(c explore.Chooser, defaultCol string) *prog.Program {
 		}
 		if !isExt && regexp.MustCompile(`\bext\.`).MatchString(body) {
 			imps = append(imps, fmt.Sprintf("\t%q", extPath))
+			body = regexp.MustCompile(`\bext\.`).ReplaceAllString(body, extName+".")
 		}
 		sort.Strings(imps)
 		hdr := "package " + pkgName + "\n\n"
@@ -369,7 +373,7 @@ func TablesWith(c explore.Chooser, defaultCol string) *prog.Program {
 		return hdr + body
 	}
 	p := &prog.Program{Family: "F-tables", Analysed: []string{"a.go"}, Features: s.Feats}
-	p.Pkgs = append(p.Pkgs, &prog.Pkg{Path: extPath, Name: "ext", Files: []prog.File{{Name: "ext.go", Src: finish("ext", ext.String(), true)}}})
+	p.Pkgs = append(p.Pkgs, &prog.Pkg{Path: extPath, Name: extName, Files: []prog.File{{Name: "ext.go", Src: finish(extName, ext.String(), true)}}})
 	p.Pkgs = append(p.Pkgs, &prog.Pkg{Path: rootPath, Name: "models", Files: []prog.File{
 		{Name: "a.go", Src: finish("models", a.String(), false)},
 		{Name: "b.go", Src: finish("models", b.String(), false)},
